@@ -4,10 +4,19 @@
    The statements are about the model of Model/C12_options.v: `compile flags other m` is
    api.transfer_model (generate + Model.simplify) with the three flags threaded exactly where
    the code reads them; that the code reads them NOWHERE ELSE is checked on every run by the
-   data-flow scan of vlib/c12.py (side condition `sites_ok` evaluated in run/C12/Gen.v).
-   `strategies_ok` is CasADi's contract for map / call / expand (trusted, see level_note): the
-   result of a mapped, called or expanded function depends only on the extension of the
-   function, not on the mode. *)
+   data-flow scan of vlib/c12.py (side condition `sites_ok` evaluated in the run directory).
+   The models range over scalars, 1-D and 2-D arrays, for-equations with loop-index subscripts,
+   user functions of two scalars AND user functions with whole-array arguments (a matrix, a
+   vector, a scalar) whose for-statements read row / column slices and elements by the loop
+   index, the mapped loop body seeing one column per iteration.
+   `strategies_ok` is CasADi's contract for map / call / expand (trusted, see level_note):
+     (1) mapS   m1 b1 vals rho = mapS m2 b2 vals rho       whenever b1, b2 agree pointwise
+     (2) imapS  m1 f vals      = imapS m2 f vals
+     (3) callS  c1 F1 a b k    = callS c2 F2 a b k         whenever F1, F2 agree pointwise
+     (4) icallS c1 F n         = icallS c2 F n
+     (5) expandS F rho         = F rho
+     (6) callMS c1 F1 M v x k  = callMS c2 F2 M v x k      whenever F1, F2 agree pointwise
+   (6) is (3) for functions called with whole arrays M (matrix), v (vector) and a scalar x. *)
 From Coq Require Import ZArith QArith Qcanon List Bool Arith.
 Import ListNotations.
 From PV Require Import Model.C11_residual Model.C12_options Proofs.C12_options.
@@ -22,23 +31,55 @@ Theorem C12_noninterference
   (callS : callmode -> (Qc -> Qc -> nat -> option Qc) -> Qc -> Qc -> nat -> option Qc)
   (icallS : callmode -> (Z -> Z) -> Z -> Z)
   (expandS : (env -> list (option Qc)) -> env -> list (option Qc))
+  (callMS : callmode -> ((Z -> Z -> Qc) -> (Z -> Qc) -> Qc -> nat -> option Qc) ->
+            (Z -> Z -> Qc) -> (Z -> Qc) -> Qc -> nat -> option Qc)
   (P1 P2 P3 P4 : gmodel -> gmodel) (P5 : bool -> gmodel -> gmodel) :
-  strategies_ok mapS imapS callS icallS expandS ->
+  strategies_ok mapS imapS callS icallS expandS callMS ->
   forall (o : other) (m : smodel) (f1 f2 : flags),
   no_simpl o = true ->
   exists g1 g2,
     compile imapS icallS P1 P2 P3 P4 P5 f1 o m = Ok g1 /\
     compile imapS icallS P1 P2 P3 P4 P5 f2 o m = Ok g2 /\
     g_lists g1 = g_lists g2 /\ g_delay_states g1 = g_delay_states g2 /\ g_types g1 = g_types g2 /\
-    (forall rho, dae_residual_function mapS callS expandS g1 rho = dae_residual_function mapS callS expandS g2 rho) /\
-    (forall rho, initial_residual_function mapS callS expandS g1 rho = initial_residual_function mapS callS expandS g2 rho) /\
-    (forall rho, variable_metadata_function mapS callS expandS g1 rho = variable_metadata_function mapS callS expandS g2 rho) /\
-    (forall rho, delay_arguments_function mapS callS expandS g1 rho = delay_arguments_function mapS callS expandS g2 rho).
+    (forall rho, dae_residual_function mapS callS expandS callMS g1 rho = dae_residual_function mapS callS expandS callMS g2 rho) /\
+    (forall rho, initial_residual_function mapS callS expandS callMS g1 rho = initial_residual_function mapS callS expandS callMS g2 rho) /\
+    (forall rho, variable_metadata_function mapS callS expandS callMS g1 rho = variable_metadata_function mapS callS expandS callMS g2 rho) /\
+    (forall rho, delay_arguments_function mapS callS expandS callMS g1 rho = delay_arguments_function mapS callS expandS callMS g2 rho).
 Proof.
   intros Hs o m f1 f2 Ho.
-  exact (noninterference mapS imapS callS icallS expandS P1 P2 P3 P4 P5 Hs o m f1 f2 Ho).
+  exact (noninterference mapS imapS callS icallS expandS callMS P1 P2 P3 P4 P5 Hs o m f1 f2 Ho).
 Qed.
 Print Assumptions C12_noninterference.
+
+(* The array-function fragment read on its own: the dae residual of the model transfer_model
+   returns (expanded or not) is the same function under any two flag triples.  It is the
+   instance of C12_noninterference for the sub-language SCallM / SM / SL2 / SDL / s_mfuns, kept
+   as a named corollary because the correspondence of this fragment is VALUE-LEVEL
+   (check_case_val): the model's residuals equal the real ones exactly at dyadic points under
+   each flag triple, so the per-iteration slices the mapped body sees are tied to the code. *)
+Theorem C12_noninterference_matrix
+  (mapS : mapmode -> (Z -> nat -> env -> list (option Qc)) -> list Z -> env -> list (list (option Qc)))
+  (imapS : mapmode -> (Z -> Z) -> list Z -> list Z)
+  (callS : callmode -> (Qc -> Qc -> nat -> option Qc) -> Qc -> Qc -> nat -> option Qc)
+  (icallS : callmode -> (Z -> Z) -> Z -> Z)
+  (expandS : (env -> list (option Qc)) -> env -> list (option Qc))
+  (callMS : callmode -> ((Z -> Z -> Qc) -> (Z -> Qc) -> Qc -> nat -> option Qc) ->
+            (Z -> Z -> Qc) -> (Z -> Qc) -> Qc -> nat -> option Qc) :
+  strategies_ok mapS imapS callS icallS expandS callMS ->
+  forall (m : smodel) (f1 f2 : flags) (rho : env),
+  dae_residual_function mapS callS expandS callMS
+    (if expand_mx f1 then set_expand (gen imapS icallS f1 m) else gen imapS icallS f1 m) rho
+  = dae_residual_function mapS callS expandS callMS
+    (if expand_mx f2 then set_expand (gen imapS icallS f2 m) else gen imapS icallS f2 m) rho.
+Proof.
+  intros Hs m f1 f2 rho.
+  destruct (noninterference mapS imapS callS icallS expandS callMS (fun g => g) (fun g => g) (fun g => g) (fun g => g)
+              (fun _ g => g) Hs plain m f1 f2 eq_refl) as (g1 & g2 & H1 & H2 & _ & _ & _ & Hd & _).
+  rewrite (compile_plain imapS icallS _ _ _ _ _ f1 plain m eq_refl) in H1.
+  rewrite (compile_plain imapS icallS _ _ _ _ _ f2 plain m eq_refl) in H2.
+  injection H1 as <-. injection H2 as <-. apply Hd.
+Qed.
+Print Assumptions C12_noninterference_matrix.
 
 (* Attribute expressions that do not call user functions are generated literally equal
    (with calls they differ in the inline tag of the call node only, and C12_noninterference gives
@@ -48,18 +89,20 @@ Theorem C12_metadata_literal
   (imapS : mapmode -> (Z -> Z) -> list Z -> list Z)
   (callS : callmode -> (Qc -> Qc -> nat -> option Qc) -> Qc -> Qc -> nat -> option Qc)
   (icallS : callmode -> (Z -> Z) -> Z -> Z)
-  (expandS : (env -> list (option Qc)) -> env -> list (option Qc)) :
-  strategies_ok mapS imapS callS icallS expandS ->
+  (expandS : (env -> list (option Qc)) -> env -> list (option Qc))
+  (callMS : callmode -> ((Z -> Z -> Qc) -> (Z -> Qc) -> Qc -> nat -> option Qc) ->
+            (Z -> Z -> Qc) -> (Z -> Qc) -> Qc -> nat -> option Qc) :
+  strategies_ok mapS imapS callS icallS expandS callMS ->
   forall (m : smodel) (f1 f2 : flags),
   forallb (fun d => forallb call_free (d_attrs d)) (s_decls m) = true ->
   g_attrs (gen imapS icallS f1 m) = g_attrs (gen imapS icallS f2 m).
-Proof. intros Hs m f1 f2 H. exact (metadata_literal mapS imapS callS icallS expandS Hs m f1 f2 H). Qed.
+Proof. intros Hs m f1 f2 H. exact (metadata_literal mapS imapS callS icallS expandS callMS Hs m f1 f2 H). Qed.
 Print Assumptions C12_metadata_literal.
 
 (* The hypothesis `no_simpl` cannot be dropped: with eliminable_variable_expression set the
    flag expand_mx decides between an exception and a model (model.py:731).
-   C12_expand_commutes of DESIGN.md (expand_vectors before/after the scalar passes) is NOT
-   proved: the passes are opaque in this model. *)
+   NOT proved (the passes are opaque in this model): C12_expand_commutes of DESIGN.md, i.e. the
+   intra-array alias stream with {expand_vectors, detect_aliases} fixed stays oracle-only. *)
 Theorem C12_flags_matter_with_eliminable
   (imapS : mapmode -> (Z -> Z) -> list Z -> list Z) (icallS : callmode -> (Z -> Z) -> Z -> Z)
   (P1 P2 P3 P4 : gmodel -> gmodel) (P5 : bool -> gmodel -> gmodel) (m : smodel) :
@@ -70,20 +113,31 @@ Print Assumptions C12_flags_matter_with_eliminable.
 
 (* non-vacuity: the reference strategies (apply iteration by iteration, call = apply,
    expand = identity) satisfy the contract *)
-Example C12_strategies_example : strategies_ok mapR imapR callR icallR expandR.
+Example C12_strategies_example : strategies_ok mapR imapR callR icallR expandR callMR.
 Proof. exact reference_strategies_ok. Qed.
 Print Assumptions C12_strategies_example.
 
 (* a concrete non-trivial model (the corpus model of vlib/c12.py: two user functions with if- and
-   for-statements, for-equations with offset / reversed / scaled / squared subscripts and a call, plain and in-loop delays, an array of
-   dimension n-3 = 0, an attribute calling a function): the model compiles under two different flag
-   triples to the lists / delay inputs / residual lengths the REAL transfer_model produced *)
+   for-statements, for-equations with offset / reversed / scaled / squared subscripts and a call,
+   plain and in-loop delays, an array of dimension n-3 = 0, an attribute calling a function): the
+   model compiles under two different flag triples to the lists / delay inputs / residual lengths
+   the REAL transfer_model produced *)
 Open Scope Qc_scope.
 Definition corpus_model : smodel :=
-  (mkSmodel [(mkDecl (C10.mkSym 0%nat 0%nat [C10.Kparameter] C10.TInteger false) None [(SNum (Q2Qc (3 # 1)))]); (mkDecl (C10.mkSym 1%nat 1%nat [] C10.TReal false) None [(SNum (Q2Qc (1 # 1))); (SNeg (SRef (SV 10%nat))); (SCall 0%nat (SRef (SV 10%nat)) (SNum (Q2Qc (2 # 1))) 0%nat)]); (mkDecl (C10.mkSym 2%nat 2%nat [] C10.TReal false) None []); (mkDecl (C10.mkSym 3%nat 3%nat [] C10.TReal false) None []); (mkDecl (C10.mkSym 4%nat 4%nat [C10.Koutput] C10.TReal false) None []); (mkDecl (C10.mkSym 5%nat 5%nat [] C10.TReal false) (Some (IPar 0%nat (0)%Z)) []); (mkDecl (C10.mkSym 6%nat 6%nat [] C10.TReal false) (Some (IPar 0%nat (1)%Z)) []); (mkDecl (C10.mkSym 7%nat 7%nat [] C10.TReal false) (Some (IPar 0%nat (-3)%Z)) []); (mkDecl (C10.mkSym 8%nat 8%nat [] C10.TReal false) (Some (ILit (7)%Z)) []); (mkDecl (C10.mkSym 9%nat 9%nat [C10.Kinput] C10.TReal false) None []); (mkDecl (C10.mkSym 10%nat 10%nat [C10.Kparameter] C10.TReal false) None [(SNum (Q2Qc (3 # 2)))]); (mkDecl (C10.mkSym 11%nat 11%nat [C10.Kparameter] C10.TReal false) None [(SBin CMul (SRef (SV 10%nat)) (SNum (Q2Qc (2 # 1))))]); (mkDecl (C10.mkSym 12%nat 12%nat [C10.Kconstant] C10.TReal false) None [(SNum (Q2Qc (2 # 1)))]); (mkDecl (C10.mkSym 13%nat 13%nat [] C10.TBoolean false) None [])] (fun p => if Nat.eqb p 0%nat then (3)%Z else 0%Z) [(0%nat, mkSfun [(TAssign 4%nat (SBin CMul (SRef (SArg 0%nat)) (SRef (SArg 1%nat)))); (TAssign 2%nat (SBin CAdd (SRef (SArg 4%nat)) (SNum (Q2Qc (1 # 1))))); (TAssign 2%nat (SIf (SBin CGt (SRef (SArg 4%nat)) (SNum (Q2Qc (1 # 1)))) (SBin CAdd (SRef (SArg 2%nat)) (SNum (Q2Qc (1 # 1)))) (SBin CSub (SRef (SArg 2%nat)) (SNum (Q2Qc (1 # 1)))))); (TFor (1)%Z (ILit (3)%Z) 2%nat (SBin CAdd (SRef (SArg 2%nat)) (SBin CMul (SRef SLoop) (SRef (SArg 0%nat)))))] [2%nat]); (1%nat, mkSfun [(TAssign 4%nat (SBin CSub (SRef (SArg 0%nat)) (SRef (SArg 1%nat)))); (TAssign 2%nat (SBin CMul (SRef (SArg 4%nat)) (SNum (Q2Qc (2 # 1))))); (TAssign 3%nat (SBin CAdd (SRef (SArg 2%nat)) (SRef (SArg 1%nat)))); (TFor (1)%Z (ILit (2)%Z) 3%nat (SBin CAdd (SRef (SArg 3%nat)) (SRef SLoop)))] [2%nat; 3%nat])] [(MEq (SRef (SD 1%nat)) (SCall 0%nat (SRef (SV 2%nat)) (SRef (SV 9%nat)) 0%nat)); (MEq (SRef (SV 3%nat)) (SCall 1%nat (SRef (SV 1%nat)) (SRef (SV 10%nat)) 0%nat)); (MEq (SRef (SV 4%nat)) (SCall 1%nat (SRef (SV 1%nat)) (SRef (SV 10%nat)) 1%nat)); (MFor (1)%Z (IPar 0%nat (0)%Z) [((SRef (SL 5%nat (IOff (0)%Z))), (SBin CAdd (SRef (SL 6%nat (IOff (1)%Z))) (SBin CMul (SRef SLoop) (SRef (SV 1%nat)))))]); (MFor (2)%Z (IPar 0%nat (0)%Z) [((SRef (SL 6%nat (IOff (0)%Z))), (SIf (SBin CMul (SRef (SV 13%nat)) (SBin CGt (SRef (SL 5%nat (IOff (-1)%Z))) (SNum (Q2Qc (0 # 1))))) (SCall 0%nat (SRef (SL 5%nat (IOff (0)%Z))) (SRef (SV 2%nat)) 0%nat) (SRef (SV 12%nat))))]); (MForDelay (1)%Z (ILit (1)%Z) (SRef (SL 6%nat (IOff (0)%Z))) (SRef (SL 5%nat (IOff (1)%Z))) (SNum (Q2Qc (1 # 2)))); (MFor (1)%Z (ILit (2)%Z) [((SRef (SL 8%nat (IRev (4)%Z))), (SBin CSub (SRef (SL 8%nat (ILin (2)%Z (3)%Z))) (SRef (SL 8%nat ISq)))); ((SRef (SL 8%nat (ILin (2)%Z (-1)%Z))), (SBin CMul (SRef (SL 6%nat (IRev (4)%Z))) (SRef (SL 5%nat (IRev (3)%Z)))))]); (MDelay (SRef (SI 6%nat (4)%Z)) (SBin CMul (SRef (SV 2%nat)) (SRef (SV 11%nat))) (SRef (SV 10%nat))); (MEq (SRef (SV 13%nat)) (SBin CGt (SRef (SV 1%nat)) (SRef (SV 2%nat)))); (MEq (SRef (SV 2%nat)) (SBin CSub (SRef (SV 999%nat)) (SRef (SD 1%nat))))] [(MEq (SRef (SV 1%nat)) (SRef (SV 11%nat)))]).
+  (mkSmodel [(mkDecl (C10.mkSym 0%nat 0%nat [C10.Kparameter] C10.TInteger false) None None [(SNum (Q2Qc (3 # 1)))]); (mkDecl (C10.mkSym 1%nat 1%nat [] C10.TReal false) None None [(SNum (Q2Qc (1 # 1))); (SNeg (SRef (SV 10%nat))); (SCall 0%nat (SRef (SV 10%nat)) (SNum (Q2Qc (2 # 1))) 0%nat)]); (mkDecl (C10.mkSym 2%nat 2%nat [] C10.TReal false) None None []); (mkDecl (C10.mkSym 3%nat 3%nat [] C10.TReal false) None None []); (mkDecl (C10.mkSym 4%nat 4%nat [C10.Koutput] C10.TReal false) None None []); (mkDecl (C10.mkSym 5%nat 5%nat [] C10.TReal false) (Some (IPar 0%nat (0)%Z)) None []); (mkDecl (C10.mkSym 6%nat 6%nat [] C10.TReal false) (Some (IPar 0%nat (1)%Z)) None []); (mkDecl (C10.mkSym 7%nat 7%nat [] C10.TReal false) (Some (IPar 0%nat (-3)%Z)) None []); (mkDecl (C10.mkSym 8%nat 8%nat [] C10.TReal false) (Some (ILit (7)%Z)) None []); (mkDecl (C10.mkSym 9%nat 9%nat [C10.Kinput] C10.TReal false) None None []); (mkDecl (C10.mkSym 10%nat 10%nat [C10.Kparameter] C10.TReal false) None None [(SNum (Q2Qc (3 # 2)))]); (mkDecl (C10.mkSym 11%nat 11%nat [C10.Kparameter] C10.TReal false) None None [(SBin CMul (SRef (SV 10%nat)) (SNum (Q2Qc (2 # 1))))]); (mkDecl (C10.mkSym 12%nat 12%nat [C10.Kconstant] C10.TReal false) None None [(SNum (Q2Qc (2 # 1)))]); (mkDecl (C10.mkSym 13%nat 13%nat [] C10.TBoolean false) None None [])] (fun p => if Nat.eqb p 0%nat then (3)%Z else 0%Z) [(0%nat, mkSfun [(TAssign 4%nat (SBin CMul (SRef (SArg 0%nat)) (SRef (SArg 1%nat)))); (TAssign 2%nat (SBin CAdd (SRef (SArg 4%nat)) (SNum (Q2Qc (1 # 1))))); (TAssign 2%nat (SIf (SBin CGt (SRef (SArg 4%nat)) (SNum (Q2Qc (1 # 1)))) (SBin CAdd (SRef (SArg 2%nat)) (SNum (Q2Qc (1 # 1)))) (SBin CSub (SRef (SArg 2%nat)) (SNum (Q2Qc (1 # 1)))))); (TFor (1)%Z (ILit (3)%Z) 2%nat (SBin CAdd (SRef (SArg 2%nat)) (SBin CMul (SRef SLoop) (SRef (SArg 0%nat)))))] [2%nat]); (1%nat, mkSfun [(TAssign 4%nat (SBin CSub (SRef (SArg 0%nat)) (SRef (SArg 1%nat)))); (TAssign 2%nat (SBin CMul (SRef (SArg 4%nat)) (SNum (Q2Qc (2 # 1))))); (TAssign 3%nat (SBin CAdd (SRef (SArg 2%nat)) (SRef (SArg 1%nat)))); (TFor (1)%Z (ILit (2)%Z) 3%nat (SBin CAdd (SRef (SArg 3%nat)) (SRef SLoop)))] [2%nat; 3%nat])] [] [(MEq (SRef (SD 1%nat)) (SCall 0%nat (SRef (SV 2%nat)) (SRef (SV 9%nat)) 0%nat)); (MEq (SRef (SV 3%nat)) (SCall 1%nat (SRef (SV 1%nat)) (SRef (SV 10%nat)) 0%nat)); (MEq (SRef (SV 4%nat)) (SCall 1%nat (SRef (SV 1%nat)) (SRef (SV 10%nat)) 1%nat)); (MFor (1)%Z (IPar 0%nat (0)%Z) [((SRef (SL 5%nat (IOff (0)%Z))), (SBin CAdd (SRef (SL 6%nat (IOff (1)%Z))) (SBin CMul (SRef SLoop) (SRef (SV 1%nat)))))]); (MFor (2)%Z (IPar 0%nat (0)%Z) [((SRef (SL 6%nat (IOff (0)%Z))), (SIf (SBin CMul (SRef (SV 13%nat)) (SBin CGt (SRef (SL 5%nat (IOff (-1)%Z))) (SNum (Q2Qc (0 # 1))))) (SCall 0%nat (SRef (SL 5%nat (IOff (0)%Z))) (SRef (SV 2%nat)) 0%nat) (SRef (SV 12%nat))))]); (MForDelay (1)%Z (ILit (1)%Z) (SRef (SL 6%nat (IOff (0)%Z))) (SRef (SL 5%nat (IOff (1)%Z))) (SNum (Q2Qc (1 # 2)))); (MFor (1)%Z (ILit (2)%Z) [((SRef (SL 8%nat (IRev (4)%Z))), (SBin CSub (SRef (SL 8%nat (ILin (2)%Z (3)%Z))) (SRef (SL 8%nat ISq)))); ((SRef (SL 8%nat (ILin (2)%Z (-1)%Z))), (SBin CMul (SRef (SL 6%nat (IRev (4)%Z))) (SRef (SL 5%nat (IRev (3)%Z)))))]); (MDelay (SRef (SI 6%nat (4)%Z)) (SBin CMul (SRef (SV 2%nat)) (SRef (SV 11%nat))) (SRef (SV 10%nat))); (MEq (SRef (SV 13%nat)) (SBin CGt (SRef (SV 1%nat)) (SRef (SV 2%nat)))); (MEq (SRef (SV 2%nat)) (SBin CSub (SRef (SV 999%nat)) (SRef (SD 1%nat))))] [(MEq (SRef (SV 1%nat)) (SRef (SV 11%nat)))]).
 Example C12_concrete_example :
   check_case (corpus_model,
     [ (mkFlags false false false, (Some ((C10.mkObs [1%nat] [(C10.Der 1%nat)] [2%nat; 3%nat; 4%nat; 5%nat; 6%nat; 8%nat; 13%nat] [9%nat] [0%nat; 10%nat; 11%nat] [12%nat] [] [] [4%nat]), 2%nat, (16%nat, 1%nat, 4%nat))));
       (mkFlags true false true, (Some ((C10.mkObs [1%nat] [(C10.Der 1%nat)] [2%nat; 3%nat; 4%nat; 5%nat; 6%nat; 8%nat; 13%nat] [9%nat] [0%nat; 10%nat; 11%nat] [12%nat] [] [] [4%nat]), 2%nat, (16%nat, 1%nat, 4%nat)))) ]) = true.
 Proof. vm_compute. reflexivity. Qed.
 Print Assumptions C12_concrete_example.
+
+(* a concrete array-function model (function g(A, b) with a row loop and a column loop reading
+   slices by the loop index, function h(A, x) with an if-statement): under three flag triples
+   the model's lists and its EXACT dae / initial residuals at a dyadic point are the ones the
+   REAL transfer_model produced *)
+Example C12_matrix_example :
+  check_case ((mkSmodel [(mkDecl (C10.mkSym 0%nat 0%nat [C10.Kparameter] C10.TReal false) None None [(SNum (Q2Qc (2 # 1)))]); (mkDecl (C10.mkSym 1%nat 1%nat [] C10.TReal false) (Some (ILit (3)%Z)) (Some (3)%Z) []); (mkDecl (C10.mkSym 2%nat 2%nat [] C10.TReal false) (Some (ILit (3)%Z)) None [(SRef (SV 0%nat)); (SBin CMul (SNum (Q2Qc (3 # 1))) (SRef (SV 0%nat)))]); (mkDecl (C10.mkSym 3%nat 3%nat [] C10.TReal false) None None []); (mkDecl (C10.mkSym 4%nat 4%nat [] C10.TReal false) None None [])] (fun _ => 0%Z) [] [(0%nat, mkSfun [(TAssign 1%nat (SRef (SM 1%nat (XK (1)%Z) (XK (1)%Z) 3%nat 1%nat))); (TFor (1)%Z (ILit (3)%Z) 1%nat (SBin CAdd (SBin CMul (SRef (SArg 1%nat)) (SNum (Q2Qc (1 # 2)))) (SRef (SM 0%nat XI (XK (1)%Z) 3%nat 3%nat)))); (TFor (1)%Z (ILit (3)%Z) 1%nat (SBin CSub (SRef (SArg 1%nat)) (SBin CAdd (SBin CMul (SRef (SM 1%nat XI (XK (1)%Z) 3%nat 1%nat)) (SRef (SM 0%nat XI XAll 3%nat 3%nat))) (SRef (SM 0%nat XI (XK (1)%Z) 3%nat 3%nat))))); (TFor (1)%Z (ILit (3)%Z) 1%nat (SBin CAdd (SRef (SArg 1%nat)) (SRef (SM 0%nat XAll XI 3%nat 3%nat))))] [1%nat]); (1%nat, mkSfun [(TAssign 1%nat (SBin CAdd (SBin CMul (SRef (SArg 0%nat)) (SRef (SM 0%nat (XK (2)%Z) (XK (1)%Z) 3%nat 3%nat))) (SRef (SM 0%nat XAll (XK (1)%Z) 3%nat 3%nat)))); (TAssign 1%nat (SIf (SBin CGt (SRef (SArg 1%nat)) (SNum (Q2Qc (1 # 1)))) (SBin CSub (SRef (SArg 1%nat)) (SRef (SM 0%nat (XK (1)%Z) (XK (1)%Z) 3%nat 3%nat))) (SBin CAdd (SRef (SArg 1%nat)) (SRef (SArg 0%nat)))))] [1%nat])] [(MEq (SRef (SV 3%nat)) (SCallM 0%nat 1%nat 2%nat (SNum (Q2Qc (0 # 1))) 0%nat)); (MEq (SRef (SV 4%nat)) (SBin CAdd (SCallM 1%nat 1%nat 2%nat (SRef (SV 3%nat)) 0%nat) (SCallM 0%nat 1%nat 2%nat (SNum (Q2Qc (0 # 1))) 0%nat))); (MFor (1)%Z (ILit (3)%Z) [((SRef (SL2 1%nat (IOff (0)%Z) (1)%Z)), (SBin CMul (SRef SLoop) (SRef (SV 999%nat)))); ((SRef (SL2 1%nat (IOff (0)%Z) (2)%Z)), (SBin CAdd (SRef (SL 2%nat (IOff (0)%Z))) (SNum (Q2Qc (2 # 1))))); ((SRef (SL2 1%nat (IOff (0)%Z) (3)%Z)), (SBin CAdd (SRef (SL 2%nat (IOff (0)%Z))) (SNum (Q2Qc (3 # 1))))); ((SRef (SDL 2%nat (IOff (0)%Z))), (SBin CMul (SNeg (SRef (SV 0%nat))) (SRef (SL 2%nat (IOff (0)%Z)))))])] [(MFor (1)%Z (ILit (3)%Z) [((SRef (SL 2%nat (IOff (0)%Z))), (SBin CMul (SRef SLoop) (SRef (SV 0%nat))))])]), [(mkFlags false false false, (Some ((C10.mkObs [2%nat] [(C10.Der 2%nat)] [1%nat; 3%nat; 4%nat] [] [0%nat] [] [] [] []), 0%nat, (14%nat, 3%nat, 0%nat)))); (mkFlags true true true, (Some ((C10.mkObs [2%nat] [(C10.Der 2%nat)] [1%nat; 3%nat; 4%nat] [] [0%nat] [] [] [] []), 0%nat, (14%nat, 3%nat, 0%nat)))); (mkFlags false true false, (Some ((C10.mkObs [2%nat] [(C10.Der 2%nat)] [1%nat; 3%nat; 4%nat] [] [0%nat] [] [] [] []), 0%nat, (14%nat, 3%nat, 0%nat))))]) = true /\
+  check_case_val ((mkSmodel [(mkDecl (C10.mkSym 0%nat 0%nat [C10.Kparameter] C10.TReal false) None None [(SNum (Q2Qc (2 # 1)))]); (mkDecl (C10.mkSym 1%nat 1%nat [] C10.TReal false) (Some (ILit (3)%Z)) (Some (3)%Z) []); (mkDecl (C10.mkSym 2%nat 2%nat [] C10.TReal false) (Some (ILit (3)%Z)) None [(SRef (SV 0%nat)); (SBin CMul (SNum (Q2Qc (3 # 1))) (SRef (SV 0%nat)))]); (mkDecl (C10.mkSym 3%nat 3%nat [] C10.TReal false) None None []); (mkDecl (C10.mkSym 4%nat 4%nat [] C10.TReal false) None None [])] (fun _ => 0%Z) [] [(0%nat, mkSfun [(TAssign 1%nat (SRef (SM 1%nat (XK (1)%Z) (XK (1)%Z) 3%nat 1%nat))); (TFor (1)%Z (ILit (3)%Z) 1%nat (SBin CAdd (SBin CMul (SRef (SArg 1%nat)) (SNum (Q2Qc (1 # 2)))) (SRef (SM 0%nat XI (XK (1)%Z) 3%nat 3%nat)))); (TFor (1)%Z (ILit (3)%Z) 1%nat (SBin CSub (SRef (SArg 1%nat)) (SBin CAdd (SBin CMul (SRef (SM 1%nat XI (XK (1)%Z) 3%nat 1%nat)) (SRef (SM 0%nat XI XAll 3%nat 3%nat))) (SRef (SM 0%nat XI (XK (1)%Z) 3%nat 3%nat))))); (TFor (1)%Z (ILit (3)%Z) 1%nat (SBin CAdd (SRef (SArg 1%nat)) (SRef (SM 0%nat XAll XI 3%nat 3%nat))))] [1%nat]); (1%nat, mkSfun [(TAssign 1%nat (SBin CAdd (SBin CMul (SRef (SArg 0%nat)) (SRef (SM 0%nat (XK (2)%Z) (XK (1)%Z) 3%nat 3%nat))) (SRef (SM 0%nat XAll (XK (1)%Z) 3%nat 3%nat)))); (TAssign 1%nat (SIf (SBin CGt (SRef (SArg 1%nat)) (SNum (Q2Qc (1 # 1)))) (SBin CSub (SRef (SArg 1%nat)) (SRef (SM 0%nat (XK (1)%Z) (XK (1)%Z) 3%nat 3%nat))) (SBin CAdd (SRef (SArg 1%nat)) (SRef (SArg 0%nat)))))] [1%nat])] [(MEq (SRef (SV 3%nat)) (SCallM 0%nat 1%nat 2%nat (SNum (Q2Qc (0 # 1))) 0%nat)); (MEq (SRef (SV 4%nat)) (SBin CAdd (SCallM 1%nat 1%nat 2%nat (SRef (SV 3%nat)) 0%nat) (SCallM 0%nat 1%nat 2%nat (SNum (Q2Qc (0 # 1))) 0%nat))); (MFor (1)%Z (ILit (3)%Z) [((SRef (SL2 1%nat (IOff (0)%Z) (1)%Z)), (SBin CMul (SRef SLoop) (SRef (SV 999%nat)))); ((SRef (SL2 1%nat (IOff (0)%Z) (2)%Z)), (SBin CAdd (SRef (SL 2%nat (IOff (0)%Z))) (SNum (Q2Qc (2 # 1))))); ((SRef (SL2 1%nat (IOff (0)%Z) (3)%Z)), (SBin CAdd (SRef (SL 2%nat (IOff (0)%Z))) (SNum (Q2Qc (3 # 1))))); ((SRef (SDL 2%nat (IOff (0)%Z))), (SBin CMul (SNeg (SRef (SV 0%nat))) (SRef (SL 2%nat (IOff (0)%Z)))))])] [(MFor (1)%Z (ILit (3)%Z) [((SRef (SL 2%nat (IOff (0)%Z))), (SBin CMul (SRef SLoop) (SRef (SV 0%nat))))])]), (mkVpoint [(999%nat, (Q2Qc (-1 # 1))); (0%nat, (Q2Qc (13 # 8))); (3%nat, (Q2Qc (-9 # 8))); (4%nat, (Q2Qc (-9 # 8)))] [(2%nat, [(Q2Qc (13 # 8)); (Q2Qc (1 # 1)); (Q2Qc (-9 # 8))])] [(2%nat, [(Q2Qc (-3 # 2)); (Q2Qc (-5 # 4)); (Q2Qc (-11 # 8))])] [(1%nat, (3%nat, [(Q2Qc (-2 # 1)); (Q2Qc (-15 # 8)); (Q2Qc (3 # 2)); (Q2Qc (-3 # 2)); (Q2Qc (1 # 1)); (Q2Qc (-1 # 2)); (Q2Qc (13 # 8)); (Q2Qc (-1 # 2)); (Q2Qc (-1 # 8))]))]), [(mkFlags false false false, ([(Q2Qc (-435 # 64)); (Q2Qc (-173 # 32)); (Q2Qc (-1 # 1)); (Q2Qc (1 # 8)); (Q2Qc (9 # 2)); (Q2Qc (-41 # 8)); (Q2Qc (-2 # 1)); (Q2Qc (-11 # 8)); (Q2Qc (-3 # 1)); (Q2Qc (-9 # 2)); (Q2Qc (-2 # 1)); (Q2Qc (73 # 64)); (Q2Qc (3 # 8)); (Q2Qc (-205 # 64))], [(Q2Qc (0 # 1)); (Q2Qc (-9 # 4)); (Q2Qc (-6 # 1))])); (mkFlags true true true, ([(Q2Qc (-435 # 64)); (Q2Qc (-173 # 32)); (Q2Qc (-1 # 1)); (Q2Qc (1 # 8)); (Q2Qc (9 # 2)); (Q2Qc (-41 # 8)); (Q2Qc (-2 # 1)); (Q2Qc (-11 # 8)); (Q2Qc (-3 # 1)); (Q2Qc (-9 # 2)); (Q2Qc (-2 # 1)); (Q2Qc (73 # 64)); (Q2Qc (3 # 8)); (Q2Qc (-205 # 64))], [(Q2Qc (0 # 1)); (Q2Qc (-9 # 4)); (Q2Qc (-6 # 1))])); (mkFlags false true false, ([(Q2Qc (-435 # 64)); (Q2Qc (-173 # 32)); (Q2Qc (-1 # 1)); (Q2Qc (1 # 8)); (Q2Qc (9 # 2)); (Q2Qc (-41 # 8)); (Q2Qc (-2 # 1)); (Q2Qc (-11 # 8)); (Q2Qc (-3 # 1)); (Q2Qc (-9 # 2)); (Q2Qc (-2 # 1)); (Q2Qc (73 # 64)); (Q2Qc (3 # 8)); (Q2Qc (-205 # 64))], [(Q2Qc (0 # 1)); (Q2Qc (-9 # 4)); (Q2Qc (-6 # 1))]))]) = true.
+Proof. split; vm_compute; reflexivity. Qed.
+Print Assumptions C12_matrix_example.
